@@ -137,7 +137,7 @@ def tie_numbers(rnd, n):
     """numbers k/10^j around rounding ties: last digit 5 (and its neighbours)"""
     out = set()
     while len(out) < n:
-        j = rnd.randrange(0, 6)
+        j = rnd.randrange(0, 5)           # k/10^j >= 0.0001: no exponent form
         head = rnd.randrange(0, 10 ** rnd.randrange(1, 5))
         k = head * 10 + rnd.choice((5, 5, 5, 4, 6, 0, 9))
         if k == 0 or (k % 10 == 0 and j > 0):
@@ -538,8 +538,8 @@ ALPHABET = (1, 2, 3, 4, 5)
 def plan_jobs(tier, rnd):
     """The TLC jobs of a tier.  quick: the state space of Text_mc.cfg, cut by
     the first character so that the jobs run side by side.  thorough: typed
-    texts up to 6 characters cut by their first two characters, random
-    6-character seeds extended to 8, more numbers and longer formats."""
+    texts up to 5 characters exhaustively, random texts of 6..8 characters,
+    more numbers (random ties) and longer formats."""
     jobs = []
 
     def add(label, name, **consts):
@@ -555,19 +555,22 @@ def plan_jobs(tier, rnd):
                 maxlen='MCMaxLen', nums=[], fmtmax=0)
         row_prob, text_row_prob, workers, procs = 0.35, 0.04, 3, 7
     else:
-        maxlen, fmtmax = 6, 8
+        maxlen, fmtmax = 5, 8
         ties = tie_numbers(rnd, 60)
-        add('numbers and formats', 'MC_TextN', seeds=[()], maxlen=1,
+        add('numbers and formats', 'MC_TextN', seeds=[()], maxlen=0,
             nums='MCNums \\cup ' + _tla_set(f'<<{k}, {j}>>' for k, j in ties),
             fmtmax=fmtmax)
         for a in ALPHABET:
-            for b in ALPHABET:
-                add(f'texts {CH[a] + CH[b]!r}..', f'MC_TextP{a}{b}',
-                    seeds=[(a, b)], maxlen=maxlen, nums=[], fmtmax=0)
-        seeds = sorted({tuple(rnd.choice(ALPHABET) for _ in range(6))
-                        for _ in range(40)})
-        add('long texts', 'MC_TextL', seeds=seeds, maxlen=8, nums=[], fmtmax=0)
-        row_prob, text_row_prob, workers, procs = 0.15, 0.01, 3, 7
+            add(f'texts {CH[a]!r}..', f'MC_TextP{a}', seeds=[(a,)],
+                maxlen=maxlen, nums=[], fmtmax=0)
+        # beyond the exhaustive bound: random texts of 6, 7 (and so 8)
+        # characters, each extended by every character once more
+        for i, n in enumerate((6, 6, 6, 6, 7, 7, 7, 7)):
+            seeds = sorted({tuple(rnd.choice(ALPHABET) for _ in range(n))
+                            for _ in range(60)})
+            add(f'random texts of {n}..{n + 1} characters ({i})', f'MC_TextL{i}',
+                seeds=seeds, maxlen=n + 1, nums=[], fmtmax=0)
+        row_prob, text_row_prob, workers, procs = 0.3, 0.01, 3, 7
     # several small JVMs run side by side: few GC threads each; the short
     # jobs of the quick tier finish before the optimising JIT pays off
     jvm = '-XX:ParallelGCThreads=2' + (
